@@ -20,7 +20,7 @@ theorem unauth_gate (cfg : Cfg) (st : St) (c : Cmd)
     let r := handleCommand cfg st c
     r.spawns = [bad] ∧ r.proceed = false ∧ r.st.handlerLog = st.handlerLog ∧
       r.st.frameLog = st.frameLog ∧ r.st.pending = st.pending := by
-  simp [handleCommand, hopen, husable, dispatch, hauth, hc, disconnect, commit]
+  simp [handleCommand, hopen, husable, dispatch, hauth, hc, disconnect, commit, pushFrames]
 
 /-- … and after the spawned close ran, the transport has been closed with BadRequest exactly
 once by this frame, whatever follows the command in the frame. -/
@@ -33,9 +33,9 @@ theorem unauth_gate_frame (cfg : Cfg) (st : St) (c : Cmd) (cs : List Cmd) (t : T
       r.st.frameLog = st.frameLog ++ [.discPush bad] := by
   obtain ⟨h1, h2, h3, h4, h5⟩ := unauth_gate cfg st c hopen husable hauth hc
   have hcore : (handleCommand cfg st c).st.core = st.core := by
-    simp [handleCommand, hopen, husable, dispatch, hauth, hc, disconnect, commit]
+    simp [handleCommand, hopen, husable, dispatch, hauth, hc, disconnect, commit, pushFrames]
   have hcl : (handleCommand cfg st c).st.closeLog = st.closeLog := by
-    simp [handleCommand, hopen, husable, dispatch, hauth, hc, disconnect, commit]
+    simp [handleCommand, hopen, husable, dispatch, hauth, hc, disconnect, commit, pushFrames]
   simp only [step, handleFrame, h2, Bool.not_false, Bool.true_or, if_true, h1, List.nil_append, spawnClose]
   simp [closeWith, hcore, hopen, hcl, h4, h5, bad]
 
@@ -53,9 +53,9 @@ theorem pong_cmd (cfg : Cfg) (st : St) (c : Cmd)
         r.st.frameLog = st.frameLog ∧ r.st.handlerLog = st.handlerLog) := by
   constructor
   · intro hl
-    simp [handleCommand, hopen, husable, dispatch, hauth, hp, hl, commit]
+    simp [handleCommand, hopen, husable, dispatch, hauth, hp, hl, commit, pushFrames]
   · intro hl
-    simp [handleCommand, hopen, husable, dispatch, hauth, hp, hl, disconnect, commit]
+    simp [handleCommand, hopen, husable, dispatch, hauth, hp, hl, disconnect, commit, pushFrames]
 
 /-- `pong_without_ping_disconnects` (state machine): in every reachable state `lastPing > 0`
 holds exactly when the last ping-related event of the connection is a server ping (no pong
@@ -85,9 +85,9 @@ theorem pong_without_ping_disconnects (cfg : Cfg) (ops : List Op) (c : Cmd) (cs 
   obtain ⟨_, h2⟩ := pong_cmd cfg st c hopen husable hauth hp
   obtain ⟨h2a, h2b, h2c, h2d⟩ := h2 hl
   have hcore : (handleCommand cfg st c).st.core = st.core := by
-    simp [handleCommand, hopen, husable, dispatch, hauth, hp, hl, disconnect, commit]
+    simp [handleCommand, hopen, husable, dispatch, hauth, hp, hl, disconnect, commit, pushFrames]
   have hcl : (handleCommand cfg st c).st.closeLog = st.closeLog := by
-    simp [handleCommand, hopen, husable, dispatch, hauth, hp, hl, disconnect, commit]
+    simp [handleCommand, hopen, husable, dispatch, hauth, hp, hl, disconnect, commit, pushFrames]
   simp only [step, handleFrame, h2b, Bool.not_false, Bool.true_or, if_true, h2a, List.nil_append, spawnClose]
   simp [closeWith, hcore, hopen, hcl, h2d, bad]
 
@@ -135,14 +135,18 @@ theorem reply_exactly_once (cfg : Cfg) (ops : List Op) (hm : ops.all Op.modelled
 /-- the id on a reply is the id of the command (`rep.Id = cmd.Id` is stamped where the reply is
 written): every reply frame written by `commit` for a command carries that command's id. -/
 theorem reply_carries_command_id (st : St) (e : Eff) (id : Nat) (tag : Option Nat) :
-    ∀ f ∈ (commit st e id tag).frameLog, f ∈ st.frameLog ∨
+    ∀ f ∈ (commit st e id tag).frameLog, f ∈ st.frameLog ∨ f = .pubPush ∨
       (f.tag = tag ∧ (f = .reply id (match e.reply with | some (.ok k) => k | _ => "") tag ∨
                       ∃ c, f = .error id c tag)) := by
   intro f hf
   simp only [commit, List.mem_append] at hf
-  rcases hf with hf | hf
+  rcases hf with (hf | hf) | hf
   · exact Or.inl hf
-  · right
+  · right; left
+    unfold pushFrames at hf
+    split at hf <;> simp at hf
+    exact hf
+  · right; right
     split at hf
     · simp at hf
     · cases hr : e.reply with
@@ -163,7 +167,7 @@ theorem send_never_replies (cfg : Cfg) (st : St) (c : Cmd) (hs : c.sendSelected 
   · rfl
   split
   · rfl
-  simp only [commit, dispatch]
+  simp only [commit, dispatch, pushFrames]
   split
   · simp_all [disconnect]
   split
